@@ -465,11 +465,15 @@ def unit_gather(jac, ntree=3):
     def rp(qn):
       def _rp(model):
         arrays = {}
-        for n in GS_IN:
+        # inputs AND the pre-state of every compact scratch buffer (d.cJ, d.cM, ...: whatever an earlier solve with another
+        # active set left there -- the code under test must not depend on it, so the replay plants the solver's values)
+        for n in GS_IN + sorted(x[2:] for x in sym if x[2:] not in GS_IN):
+          if n not in darrs:
+            continue
           c = darrs[n].ref.cell
-          if c.size:
+          if c.size and hasattr(c, "d0"):
             arrays["d." + n] = [float(kh.mval(model, x)) for x in c.d0[0]]
-        return write_and_run(ctx, qn, {"kind": "gather", "jac": jac, "ntree": ntree, "arrays": arrays})
+        return write_and_run(ctx, qn, {"kind": "gather", "jac": jac, "ntree": ntree, "arrays": arrays, "note": "scratch buffers (d.c*) hold the given contents before the call, as left by an earlier solve"})
 
       return _rp
 
